@@ -433,9 +433,13 @@ class DirectionalVariogram(Variogram):
         else:
             self._azimuth = angle
 
-        # reset groups and mask cache on azimuth change
+        # reset everything that is derived from the direction mask
         self._direction_mask_cache = None
         self._groups = None
+        if getattr(self, '_bin_func_name', None) != 'custom_bin_edges':
+            self._bins = None
+        self._bin_count = None
+        self.cof, self.cov = None, None
 
     @property
     def tolerance(self):
@@ -465,9 +469,13 @@ class DirectionalVariogram(Variogram):
         else:
             self._tolerance = angle
 
-        # reset groups and mask on tolerance change
+        # reset everything that is derived from the direction mask
         self._direction_mask_cache = None
         self._groups = None
+        if getattr(self, '_bin_func_name', None) != 'custom_bin_edges':
+            self._bins = None
+        self._bin_count = None
+        self.cof, self.cov = None, None
 
     @property
     def bandwidth(self):
@@ -509,9 +517,13 @@ class DirectionalVariogram(Variogram):
         else:
             self._bandwidth = width
 
-        # reset groups and direction mask cache on bandwidth change
+        # reset everything that is derived from the direction mask
         self._direction_mask_cache = None
         self._groups = None
+        if getattr(self, '_bin_func_name', None) != 'custom_bin_edges':
+            self._bins = None
+        self._bin_count = None
+        self.cof, self.cov = None, None
 
     def set_directional_model(self, model_name):
         """Set new directional model
